@@ -1,5 +1,171 @@
 import WuffsVerif.Common.Line
-/-! Line driver for C01 — stub, not built yet. -/
-open WuffsVerif.Line
+import WuffsVerif.Model.WCore.Bounds
+import WuffsVerif.Model.WCore.Stmt
+/-! Line driver for C01 (WCore scalar fragment).  Ops:
+  tb <type>                     -> lo hi | reject                 (bcheckTypeExpr1)
+  bounds <n> <fact>*n <expr>    -> lo:hi per node, pre-order | reject      (bcheckExpr)
+  facts <n> <fact>*n <stmt>     -> <m> <fact>*m | reject          (bcheckAssignment, scalar)
+  <type> = base min max  (min / max decimal or _)
+  <expr> = c <int> | v <name> <type> | u <op> e | b <op> l r | as <type> e | a <op> <n> e*n
+-/
+open WuffsVerif WuffsVerif.Line WuffsVerif.Interval WuffsVerif.WCore
 
-def main : IO Unit := runPure (fun _ => "bad-op")
+def parseBase : String → Option Base
+  | "i8" => some .i8 | "i16" => some .i16 | "i32" => some .i32 | "i64" => some .i64
+  | "u8" => some .u8 | "u16" => some .u16 | "u32" => some .u32 | "u64" => some .u64
+  | "bool" => some .bool | "ideal" => some .ideal
+  | _ => none
+
+def parseOptInt (s : String) : Option (Option Int) :=
+  if s == "_" then some none else s.toInt?.map some
+
+def parseTy : List String → Option (Ty × List String)
+  | b :: lo :: hi :: rest => do
+    let b ← parseBase b
+    let lo ← parseOptInt lo
+    let hi ← parseOptInt hi
+    pure (⟨b, lo, hi⟩, rest)
+  | _ => none
+
+def parseBOp : String → Option BOp
+  | "plus" => some .plus | "minus" => some .minus | "star" => some .star | "slash" => some .slash
+  | "percent" => some .percent | "shl" => some .shl | "shr" => some .shr | "amp" => some .amp
+  | "pipe" => some .pipe | "hat" => some .hat | "modplus" => some .modplus
+  | "modminus" => some .modminus | "modstar" => some .modstar | "modshl" => some .modshl
+  | "satplus" => some .satplus | "satminus" => some .satminus
+  | "ne" => some .ne | "lt" => some .lt | "le" => some .le | "eq" => some .eq
+  | "ge" => some .ge | "gt" => some .gt | "and" => some .and | "or" => some .or
+  | _ => none
+
+def parseUOp : String → Option UOp
+  | "pos" => some .pos | "neg" => some .neg | "not" => some .not
+  | _ => none
+
+mutual
+partial def parseExpr : List String → Option (Expr × List String)
+  | "c" :: v :: rest => do pure (.const (← v.toInt?), rest)
+  | "v" :: n :: rest => do
+    let (t, rest) ← parseTy rest
+    pure (.var n t, rest)
+  | "u" :: op :: rest => do
+    let op ← parseUOp op
+    let (e, rest) ← parseExpr rest
+    pure (.unary op e, rest)
+  | "b" :: op :: rest => do
+    let op ← parseBOp op
+    let (l, rest) ← parseExpr rest
+    let (r, rest) ← parseExpr rest
+    pure (.binary op l r, rest)
+  | "as" :: rest => do
+    let (t, rest) ← parseTy rest
+    let (e, rest) ← parseExpr rest
+    pure (.as t e, rest)
+  | "a" :: op :: n :: rest => do
+    let op ← parseBOp op
+    let n ← n.toNat?
+    if n < 2 then none else
+    let (a0, rest) ← parseExpr rest
+    parseChain op (n - 1) a0 false rest
+  | _ => none
+partial def parseChain (op : BOp) (k : Nat) (acc : Expr) (pre : Bool) (rest : List String) :
+    Option (Expr × List String) :=
+  if k == 0 then some (acc, rest) else do
+    let (a, rest) ← parseExpr rest
+    parseChain op (k - 1) (.assoc op pre acc a) true rest
+end
+
+partial def parseExprs (k : Nat) (toks : List String) (acc : List Expr) : Option (List Expr × List String) :=
+  if k == 0 then some (acc.reverse, toks) else do
+    let (e, rest) ← parseExpr toks
+    parseExprs (k - 1) rest (e :: acc)
+
+def showB (b : Option Int) : String := match b with | some i => toString i | none => "inf"
+def showIRc (r : IR) : String := showB r.lo ++ ":" ++ showB r.hi
+
+-- inverse of the harness's serialisation (for the `facts` op)
+def showTy (t : Ty) : String :=
+  let b := match t.base with
+    | .i8 => "i8" | .i16 => "i16" | .i32 => "i32" | .i64 => "i64"
+    | .u8 => "u8" | .u16 => "u16" | .u32 => "u32" | .u64 => "u64" | .bool => "bool" | .ideal => "ideal"
+  let o := fun (x : Option Int) => match x with | some i => toString i | none => "_"
+  b ++ " " ++ o t.min ++ " " ++ o t.max
+
+def showBOp : BOp → String
+  | .plus => "plus" | .minus => "minus" | .star => "star" | .slash => "slash" | .percent => "percent"
+  | .shl => "shl" | .shr => "shr" | .amp => "amp" | .pipe => "pipe" | .hat => "hat"
+  | .modplus => "modplus" | .modminus => "modminus" | .modstar => "modstar" | .modshl => "modshl"
+  | .satplus => "satplus" | .satminus => "satminus" | .ne => "ne" | .lt => "lt" | .le => "le"
+  | .eq => "eq" | .ge => "ge" | .gt => "gt" | .and => "and" | .or => "or"
+
+def showUOp : UOp → String
+  | .pos => "pos" | .neg => "neg" | .not => "not"
+
+partial def chainArgs : Expr → List Expr
+  | .assoc _ true l r => chainArgs l ++ [r]
+  | .assoc _ false l r => [l, r]
+  | e => [e]
+
+partial def showExpr : Expr → String
+  | .const v => "c " ++ toString v
+  | .var n t => "v " ++ n ++ " " ++ showTy t
+  | .unary op e => "u " ++ showUOp op ++ " " ++ showExpr e
+  | .binary op l r => "b " ++ showBOp op ++ " " ++ showExpr l ++ " " ++ showExpr r
+  | .as t e => "as " ++ showTy t ++ " " ++ showExpr e
+  | .assoc op pre l r =>
+    let args := chainArgs (.assoc op pre l r)
+    "a " ++ showBOp op ++ " " ++ toString args.length ++ " " ++ " ".intercalate (args.map showExpr)
+
+def parseStmt : List String → Option (Stmt × List String)
+  | "assign" :: rest => do
+    let (l, rest) ← parseExpr rest
+    let (r, rest) ← parseExpr rest
+    pure (.assign l r, rest)
+  | "opassign" :: op :: rest => do
+    let op ← parseBOp op
+    let (l, rest) ← parseExpr rest
+    let (r, rest) ← parseExpr rest
+    pure (.opAssign op l r, rest)
+  | _ => none
+
+def c01Step (l : List String) : String :=
+  match l with
+  | "tb" :: rest =>
+    match parseTy rest with
+    | some (t, []) =>
+      match typeBounds t with
+      | some r => showB r.lo ++ " " ++ showB r.hi
+      | none => "reject"
+    | _ => "bad-op"
+  | "bounds" :: n :: rest =>
+    match n.toNat? with
+    | none => "bad-op"
+    | some n =>
+      match parseExprs n rest [] with
+      | some (fs, rest) =>
+        match parseExpr rest with
+        | some (e, []) =>
+          match bcheck fs false e with
+          | none => "reject"
+          | some _ =>
+            " ".intercalate ((nodesPre e).map fun nd =>
+              match bcheck fs false nd with
+              | some b => showIRc b
+              | none => "reject")
+        | _ => "bad-op"
+      | none => "bad-op"
+  | "facts" :: n :: rest =>
+    match n.toNat? with
+    | none => "bad-op"
+    | some n =>
+      match parseExprs n rest [] with
+      | some (fs, rest) =>
+        match parseStmt rest with
+        | some (s, []) =>
+          match checkStmt fs s with
+          | none => "reject"
+          | some fs' => toString fs'.length ++ (String.join (fs'.map fun f => " " ++ showExpr f))
+        | _ => "bad-op"
+      | none => "bad-op"
+  | _ => "bad-op"
+
+def main : IO Unit := runPure c01Step
